@@ -707,4 +707,79 @@ theorem HChain.replay {h : List Ver} (hc : HChain h) :
       List.foldl_cons, List.foldl_nil, topStore_cons]
     rw [ih hc.tail, hc.head_store]
 
+/-! ### the rollback cache: extending a cached overlay = rebuilding it -/
+
+theorem buildOverlay_congr (rbs rbs' : List (Nat × Patch)) (n : Nat) : ∀ (lo : Nat) (rb : Raw),
+    (∀ i, i < n → lookupH rbs (lo + 1 + i) = lookupH rbs' (lo + 1 + i)) →
+    buildOverlay rbs lo n rb = buildOverlay rbs' lo n rb := by
+  induction n with
+  | zero => intro lo rb _; rfl
+  | succ n ih =>
+    intro lo rb he
+    have h0 := he 0 (Nat.succ_pos n)
+    simp only [Nat.add_zero] at h0
+    simp only [buildOverlay, ← h0]
+    cases lookupH rbs (lo + 1) with
+    | none => rfl
+    | some p =>
+      simp only []
+      apply ih
+      intro i hi
+      have := he (i + 1) (by omega)
+      rwa [show lo + 1 + (i + 1) = lo + 1 + 1 + i by omega] at this
+
+theorem buildOverlay_split (rbs : List (Nat × Patch)) (a b : Nat) : ∀ (lo : Nat) (rb : Raw),
+    (∀ i, i < a → (lookupH rbs (lo + 1 + i)).isSome = true) →
+    buildOverlay rbs lo (a + b) rb = buildOverlay rbs (lo + a) b (buildOverlay rbs lo a rb) := by
+  induction a with
+  | zero => intro lo rb _; simp [buildOverlay]
+  | succ a ih =>
+    intro lo rb hall
+    obtain ⟨q, hq⟩ := Option.isSome_iff_exists.1 (hall 0 (Nat.succ_pos a))
+    simp only [Nat.add_zero] at hq
+    have hstep : ∀ m r, buildOverlay rbs lo (m + 1) r = buildOverlay rbs (lo + 1) m (woApply r q) := by
+      intro m r; simp [buildOverlay, hq]
+    rw [show a + 1 + b = (a + b) + 1 by omega, hstep (a + b) rb, hstep a rb,
+      show lo + (a + 1) = lo + 1 + a by omega]
+    apply ih
+    intro i hi
+    have := hall (i + 1) (by omega)
+    rwa [show lo + 1 + (i + 1) = lo + 1 + 1 + i by omega] at this
+
+theorem RbInv.lookup_eq {rbs rbs' : List (Nat × Patch)} {h : List Ver} (hr : RbInv rbs h) (hr' : RbInv rbs' h)
+    (hc : HChain h) (j : Nat) (h1 : 1 ≤ j) (h2 : j ≤ h.length) : lookupH rbs j = lookupH rbs' j := by
+  induction h with
+  | nil => simp at h2; omega
+  | cons v h ih =>
+    have hh := hc.head_height
+    by_cases hj : j = h.length + 1
+    · rw [hj, ← hh, hr.1, hr'.1]
+    · exact ih hr.2 hr'.2 hc.tail (by simp at h2; omega)
+
+/-- cache soundness (the invariant `I_cache` of DESIGN §3 C06): an overlay for version `v` that was folded when
+    the chain was `h` and is extended, in a later state whose chain still has `h` as its lower part, by the undo
+    patches above `h`, is the overlay the cache-free `Get` builds from scratch in the later state -/
+theorem Inv0.cached_overlay {s s' : Ldb} {h newer : List Ver} (hi : Inv0 s h) (hi' : Inv0 s' (newer ++ h))
+    {v : Ver} (hv : v ∈ h) :
+    buildOverlay s'.rollbacks s.frontierId.height (s'.frontierId.height - s.frontierId.height)
+        (buildOverlay s.rollbacks v.id.height (s.frontierId.height - v.id.height) []) =
+      buildOverlay s'.rollbacks v.id.height (s'.frontierId.height - v.id.height) [] := by
+  have hf : s.frontierId.height = h.length := by rw [hi.frontierId, hi.hchain.topHeight]
+  have hf' : s'.frontierId.height = newer.length + h.length := by
+    rw [hi'.frontierId, hi'.hchain.topHeight, List.length_append]
+  have hvh := hi.hchain.mem_height hv
+  have hrb' : RbInv s'.rollbacks h := hi'.rb.suffix
+  have hc : buildOverlay s.rollbacks v.id.height (h.length - v.id.height) [] =
+      buildOverlay s'.rollbacks v.id.height (h.length - v.id.height) [] := by
+    apply buildOverlay_congr
+    intro i hi0
+    exact hi.rb.lookup_eq hrb' hi.hchain _ (by omega) (by omega)
+  rw [hf, hf', hc]
+  have hsplit := buildOverlay_split s'.rollbacks (h.length - v.id.height) newer.length v.id.height []
+    (fun i hi0 => hrb'.isSome hi.hchain _ (by omega) (by omega))
+  rw [show v.id.height + (h.length - v.id.height) = h.length by omega] at hsplit
+  rw [show newer.length + h.length - h.length = newer.length by omega,
+    show newer.length + h.length - v.id.height = (h.length - v.id.height) + newer.length by omega]
+  exact hsplit.symm
+
 end ZV.Versioned
